@@ -46,6 +46,7 @@ def famOf : String → PFam | "soap" => .soap | "http" => .http | _ => .plain
 def methodOf : String → PMethod | "post" => .post | "get" => .get | _ => .other
 def ctypeOf : String → PCtype
   | "absent" => .absent | "proper" => .proper | "garbage" => .garbage | "multipartNoBoundary" => .multipartNoBoundary
+  | "multipartBoundary" => .multipartBoundary
   | _ => .otherType
 def lenOf : String → PLen
   | "absent" => .absent | "empty" => .empty | "exact" => .exact | "short" => .short | "long" => .long
